@@ -21,6 +21,8 @@ package vdr
 
 import (
 	"context"
+	"database/sql"
+	"database/sql/driver"
 	"encoding/json"
 	"errors"
 	"fmt"
@@ -46,6 +48,7 @@ import (
 	"github.com/nuts-foundation/nuts-node/vdr/resolver"
 	"github.com/sirupsen/logrus"
 	"go.uber.org/mock/gomock"
+	"gorm.io/gorm"
 	"pgregory.net/rapid"
 	"verif.local/h"
 	"verif.local/h/c18net"
@@ -67,6 +70,96 @@ type c18CfgOp struct {
 	M     int    `json:"m,omitempty"`     // restart: index into c18CfgMethods
 	Allow bool   `json:"allow,omitempty"` // resolve: AllowDeactivated
 	Meta  bool   `json:"meta,omitempty"`  // resolve: pass a non-nil, empty ResolveMetadata
+	// resolve: the node's SQL storage fails while Module.Resolve runs (nil = healthy storage)
+	Fault *c18CfgFault `json:"fault,omitempty"`
+}
+
+// c18CfgFault is a storage fault that lasts exactly as long as the Module.Resolve call under test. The module holds the
+// node's real database handle, so the fault is applied underneath it:
+// hook = SQL statement number At issued during the call fails with error Err before it reaches the driver;
+// no-table = table number At of the four the managed-DID read touches is missing (renamed away and back).
+type c18CfgFault struct {
+	Kind string `json:"kind"`
+	At   int    `json:"at,omitempty"`
+	Err  string `json:"err,omitempty"` // hook: generic | conn-done | bad-conn | canceled | deadline | tx-done | invalid-db | closed
+}
+
+var c18CfgHookErrs = map[string]error{
+	"generic":    errors.New("c18: injected storage failure"),
+	"conn-done":  sql.ErrConnDone,
+	"bad-conn":   driver.ErrBadConn,
+	"canceled":   context.Canceled,
+	"deadline":   context.DeadlineExceeded,
+	"tx-done":    sql.ErrTxDone,
+	"invalid-db": gorm.ErrInvalidDB,
+	"closed":     errors.New("sql: database is closed"),
+}
+
+var c18CfgReadTables = []string{"did_document_version", "did", "did_service", "did_verification_method"}
+
+func (f *c18CfgFault) String() string {
+	if f == nil {
+		return "none"
+	}
+	if f.Kind == "hook" {
+		return fmt.Sprintf("hook(statement %d fails: %s)", f.At, f.Err)
+	}
+	return fmt.Sprintf("%s(%d)", f.Kind, f.At)
+}
+
+// c18CfgHook: callbacks registered once on the node's shared handle (gorm keeps callbacks per configuration, so every
+// session the module derives from it runs them); a no-op unless armed.
+var c18CfgHook struct {
+	armed, fired bool
+	at, seen     int
+	err          error
+}
+
+func c18CfgInstallFaultHook(db *gorm.DB) error {
+	fn := func(tx *gorm.DB) {
+		if !c18CfgHook.armed {
+			return
+		}
+		if c18CfgHook.seen == c18CfgHook.at {
+			c18CfgHook.fired = true
+			_ = tx.AddError(c18CfgHook.err)
+		}
+		c18CfgHook.seen++
+	}
+	if err := db.Callback().Query().Before("gorm:query").Register("c18:storage-fault", fn); err != nil {
+		return err
+	}
+	if err := db.Callback().Row().Before("gorm:row").Register("c18:storage-fault", fn); err != nil {
+		return err
+	}
+	return db.Callback().Raw().Before("gorm:raw").Register("c18:storage-fault", fn)
+}
+
+// c18CfgApplyFault starts the fault; the returned function ends it and tells whether it took effect.
+func c18CfgApplyFault(x *h.Ctx, db *gorm.DB, f *c18CfgFault) func() bool {
+	switch f.Kind {
+	case "hook":
+		e := c18CfgHookErrs[f.Err]
+		if e == nil {
+			e = c18CfgHookErrs["generic"]
+		}
+		c18CfgHook.armed, c18CfgHook.fired, c18CfgHook.at, c18CfgHook.seen, c18CfgHook.err = true, false, f.At, 0, e
+		return func() bool { c18CfgHook.armed = false; return c18CfgHook.fired }
+	case "no-table":
+		tbl := c18CfgReadTables[((f.At%len(c18CfgReadTables))+len(c18CfgReadTables))%len(c18CfgReadTables)]
+		x.NoErr(db.Exec("ALTER TABLE "+tbl+" RENAME TO "+tbl+"_c18gone").Error, "rename table away")
+		restored := false
+		restore := func() bool {
+			if !restored {
+				restored = true
+				x.NoErr(db.Exec("ALTER TABLE "+tbl+"_c18gone RENAME TO "+tbl).Error, "rename table back")
+			}
+			return true
+		}
+		x.Cleanup(func() { restore() })
+		return restore
+	}
+	return func() bool { return false }
 }
 
 type c18CfgCase struct {
@@ -125,6 +218,16 @@ func c18GenLocalConfig(t *rapid.T) c18CfgCase {
 			case "resolve":
 				op.Allow = rapid.IntRange(0, 2).Draw(t, "allow") == 2
 				op.Meta = rapid.Bool().Draw(t, "meta")
+				if rapid.IntRange(0, 2).Draw(t, "faulty") == 0 {
+					f := &c18CfgFault{Kind: rapid.SampledFrom([]string{"hook", "hook", "hook", "hook", "hook", "no-table"}).Draw(t, "fault")}
+					if f.Kind == "hook" {
+						f.At = rapid.SampledFrom([]int{0, 0, 0, 1, 2, 3, 4}).Draw(t, "faultat") // beyond the last statement: never fires
+						f.Err = rapid.SampledFrom([]string{"generic", "closed", "conn-done", "bad-conn", "canceled", "deadline", "tx-done", "invalid-db"}).Draw(t, "faulterr")
+					} else {
+						f.At = rapid.IntRange(0, len(c18CfgReadTables)-1).Draw(t, "faultat")
+					}
+					op.Fault = f
+				}
 			}
 			c.Ops = append(c.Ops, op)
 		}
@@ -148,6 +251,9 @@ func c18CfgFixture(tb testing.TB) (storage.Engine, didstore.Store) {
 		}
 		st := didstore.New(e.GetProvider("VDR"))
 		if err := st.(core.Configurable).Configure(core.ServerConfig{}); err != nil {
+			tb.Fatal(err)
+		}
+		if err := c18CfgInstallFaultHook(e.GetSQLDatabase()); err != nil {
 			tb.Fatal(err)
 		}
 		c18CfgStorage, c18CfgStore = e, st
@@ -223,7 +329,7 @@ func c18RunLocalConfig(x *h.Ctx, c c18CfgCase) {
 	c18CfgSeq++
 	ctx := audit.TestContext()
 	subs := map[int]*c18CfgSubject{}
-	restarted := false
+	restarted, sawFault := false, false
 
 	for i, op := range c.Ops {
 		s := subs[op.S]
@@ -285,8 +391,49 @@ func c18RunLocalConfig(x *h.Ctx, c c18CfgCase) {
 				if _, err := m.ResolveManaged(id); err != nil && !errors.Is(err, resolver.ErrDeactivated) {
 					x.Fatalf("step %d: %s is not in the node's store: %v", i, id, err)
 				}
-				what := fmt.Sprintf("didmethods=%s, DID deactivated=%v, allow=%v, nil-metadata=%v, after-restart=%v", c18CfgName(cur), s.deactivated, op.Allow, md == nil, restarted)
+				what := fmt.Sprintf("didmethods=%s, DID deactivated=%v, allow=%v, nil-metadata=%v, after-restart=%v, storage-fault=%s", c18CfgName(cur), s.deactivated, op.Allow, md == nil, restarted, op.Fault)
+				nw.Reset()
+				endFault := func() bool { return false }
+				if op.Fault != nil {
+					endFault = c18CfgApplyFault(x, db, op.Fault)
+				}
 				doc, dmd, err := m.Resolve(id, md)
+				faulted := endFault()
+				if op.Fault != nil {
+					x.Classf("storage-fault:%s:%s", op.Fault.Kind, c18CfgFaultEffect(op.Fault.Kind, faulted))
+				}
+				if faulted {
+					// The storage failed while the module read this managed DID: which error comes back is not prescribed. What
+					// the statement still guarantees: no network access for a managed DID, never the web's document, and a
+					// deactivated DID stays unresolvable. An error is the expected outcome and is accepted as it is.
+					sawFault = true
+					x.Classf("resolved-managed-under-storage-fault:did:%s:under=%s", id.Method, c18CfgName(cur))
+					if l := nw.Log(); len(l) > 0 {
+						x.Violate("localcfg-net:request:storage-fault", "step %d: the storage failed while %s, which this node manages, was read and the resolution made an outbound request to %s (%s)", i, id, l[0].URL, what)
+					}
+					if err != nil {
+						x.Classf("storage-fault-outcome:error(%s)", c18CfgErrClass(err))
+						if doc != nil || dmd != nil {
+							x.Violate("localcfg-result:doc-with-error", "step %d: %s: error %v together with a document", i, id, err)
+						}
+						continue
+					}
+					webDoc := false
+					if doc != nil {
+						for _, sv := range doc.Service {
+							webDoc = webDoc || sv.Type == "from-the-web"
+						}
+					}
+					if webDoc {
+						x.Violate("localcfg-net:web-document-returned:storage-fault", "step %d: the storage failed and %s, which this node manages, resolved to the document served by the web (%s)", i, id, what)
+						if s.deactivated && !op.Allow {
+							x.Violate("localcfg-deactivated:resolved:storage-fault", "step %d: locally deactivated %s resolved (from the web) without AllowDeactivated while the storage failed (%s)", i, id, what)
+						}
+						continue
+					}
+					// a document without an error although a statement failed: judged like any other local answer
+					x.Class("storage-fault-outcome:document")
+				}
 				x.Classf("resolved-managed:did:%s:under=%s", id.Method, c18CfgName(cur))
 				if s.deactivated {
 					x.Classf("resolved-managed-deactivated:under=%s", c18CfgName(cur))
@@ -360,6 +507,10 @@ func c18RunLocalConfig(x *h.Ctx, c c18CfgCase) {
 		x.Class("case:restarted")
 		x.NonTrivial()
 	}
+	if sawFault {
+		x.Class("case:managed-did-resolved-under-storage-fault")
+		x.NonTrivial()
+	}
 }
 
 func c18CfgErrClass(err error) string {
@@ -380,4 +531,14 @@ func TestVerif_C18_LocalConfig(t *testing.T) {
 
 func TestVerifReplay_C18_LocalConfig(t *testing.T) {
 	h.Replay(t, "C18", "TestVerif_C18_LocalConfig", c18RunLocalConfig, h.PanicIsViolation())
+}
+
+func c18CfgFaultEffect(kind string, faulted bool) string {
+	switch {
+	case kind == "no-table":
+		return "table-missing-during-the-call"
+	case faulted:
+		return "took-effect"
+	}
+	return "did-not-fire"
 }
